@@ -206,6 +206,9 @@ func init() {
 			jobs = append(jobs, vx.Job{Scenario: "mux.rate", Params: vx.P("dir", dir, "senders", "1", "count", "4", "size", "3000", "rate", "1000"), Bound: b(1, 2), Weight: 5})
 			jobs = append(jobs, vx.Job{Scenario: "mux.rate", Params: vx.P("dir", dir, "senders", "2", "count", "3", "size", "300", "rate", "1000", "asym", "1"), Bound: b(1, 2), Weight: 6})
 			jobs = append(jobs, vx.Job{Scenario: "mux.rate", Params: vx.P("dir", dir, "senders", "2", "count", "2", "size", "16000", "rate", "4000", "delay", "1"), Bound: b(1, 2), Weight: 6})
+			// rates that are not a round number, with a backlog of several seconds
+			jobs = append(jobs, vx.Job{Scenario: "mux.rate", Params: vx.P("dir", dir, "senders", "1", "count", "12", "size", "2000", "rate", "4096"), Bound: b(1, 2), Weight: 4})
+			jobs = append(jobs, vx.Job{Scenario: "mux.rate", Params: vx.P("dir", dir, "senders", "2", "count", "5", "size", "600", "rate", "1200", "delay", "1"), Bound: b(1, 2), Weight: 4})
 		}
 		jobs = append(jobs, vx.Job{Scenario: "panel.valve", Weight: 1})
 		jobs = append(jobs, vx.Job{Scenario: "panel.valve.sched", Bound: b(2, 3), Weight: 4})
